@@ -33,7 +33,7 @@ LEVEL_TEXT = ("Lean: for one column and every configuration (explode tiling, flu
 LEVEL_NOTE = "Trusted: Lean kernel + standard axioms; htslib/cyvcf2 conventions and codecs assumed (validated per run by the oracle); C04/C14 provide the tiling and the task execution."
 TECHNIQUE = "Lean 4 refinement theorem (pipeline = spec) composed from C08/C11/C16 lemmas + differential oracle over generated VCF/BCF inputs"
 
-KINDS = ["vcf.gz+tbi", "vcf.gz+csi", "bcf+csi"]
+KINDS = ["vcf.gz+tbi", "vcf.gz+csi", "bcf+csi", "vcf.gz+tbi0"]     # tbi0: old-style tabix index without record counts
 
 
 def convert_and_compare(ctx, spec, work, tag, kinds=KINDS, label="generated", **opts):
@@ -50,7 +50,7 @@ def convert_and_compare(ctx, spec, work, tag, kinds=KINDS, label="generated", **
                                       block_size=ctx.rng.choice([400, 0xFF00]))
         except Exception as e:  # noqa: BLE001
             raise common.Infra(f"could not materialise {kind}: {e!r}")
-        out = pathlib.Path(work) / f"{tag}_{kind[:3]}_{kind[-3:]}.zarr"
+        out = pathlib.Path(work) / f"{tag}_{kind[:3]}_{kind[-4:].replace('+', '')}.zarr"
         shutil.rmtree(out, ignore_errors=True)
         try:
             vcf2zarr.convert([path], out, worker_processes=0, **opts)
@@ -210,7 +210,7 @@ def run(ctx):
                 nrec=rng.choice([1, 3, 8, 20, 60] + ([300] if ctx.thorough else [])))
             if not spec["records"]:
                 continue
-            kinds = KINDS if (ctx.thorough or k % 2 == 0) else [rng.choice(KINDS)]
+            kinds = KINDS if ctx.thorough else (KINDS[:3] if k % 2 == 0 else [rng.choice(KINDS), "vcf.gz+tbi0"])
             convert_and_compare(ctx, spec, work, f"f{k}", kinds)
             if k % 3 == 0:
                 pipeline_model_case(ctx, spec, work, f"f{k}")
